@@ -446,8 +446,9 @@ def draw_cases(strategy, n, seed):
     return out
 
 
-def spy_call(op, cfg, seed):
-    """run graphql_cases once with hypothesis-graphql's factories replaced by recorders"""
+def spy_call(op, cfg, seed, strategy=None):
+    """run graphql_cases once with hypothesis-graphql's factories replaced by recorders (`strategy`: built earlier by the
+    caller, e.g. before the scalars were registered - the scalars in force are those registered when a case is generated)"""
     calls = []
     dummy = graphql.parse("{ __typename }")
 
@@ -459,7 +460,7 @@ def spy_call(op, cfg, seed):
 
     gql_st = gql_schemas.gql_st
     with mock.patch.object(gql_st, "queries", mk("QUERY")), mock.patch.object(gql_st, "mutations", mk("MUTATION")):
-        cases = draw_cases(op.as_strategy(generation_config=cfg), 1, seed)
+        cases = draw_cases(strategy if strategy is not None else op.as_strategy(generation_config=cfg), 1, seed)
     return calls, cases
 
 
@@ -484,9 +485,13 @@ def check_calls(chk, rng, n, mechanism="call:graphql_cases->strategy_factory"):
                                codec=rng.choice(["utf-8", "ascii", "latin-1", None]))
         custom_names = rng.sample(["Weird", "Date", "Money", "UUID", "Zed"], rng.randint(0, 3))
         custom = {k: st.just(graphql.StringValueNode(value=f"custom-{k}")) for k in custom_names}
+        # the usual order in a test module is `strategy = schema[...][...].as_strategy()` at import time and
+        # `schemathesis.graphql.scalar(...)` anywhere before the tests run: both orders must give the same request
+        early = op.as_strategy(generation_config=cfg) if rng.random() < 0.4 else None
+        chk.feature(f"{mechanism}:strategy-built-before-registration={early is not None}")
         with registered_scalars(custom):
             registered = dict(gql_scalars.CUSTOM_SCALARS)
-            calls, cases = spy_call(op, cfg, rng.randrange(2**31))
+            calls, cases = spy_call(op, cfg, rng.randrange(2**31), strategy=early)
         a = {"op": [root, tname, fname], "x00": cfg.allow_x00, "null": cfg.graphql_allow_null, "codec": cfg.codec,
              "extra": list(extra), "custom": list(registered)}
         reqs.append(("call", a))
